@@ -181,6 +181,13 @@ class TypeObj(Abstract):
     self.name = name
 
 
+class TypeOf(Abstract):
+  """type(v) of a symbolic value."""
+
+  def __init__(self, val):
+    self.val = val
+
+
 class ModuleObj(Abstract):
   def __init__(self, name):
     self.name = name
